@@ -273,6 +273,7 @@ def run(ctx):
                       {"obligation": r.failed_file, "log": r.log[-3000:]}, found_input=False)
 
     correspondence(ctx)
+    big_index(ctx)
 
 
 def correspondence(ctx):
@@ -426,6 +427,116 @@ def correspondence(ctx):
     ctx.cov["renumbered_pairs"] = len(ren)
     ex = next((c for c in cases if len(c["ops"]) <= 4), cases[0])
     ctx.sample({"case": {k: ex[k] for k in ("id", "complex", "dof_n", "meshes")}, "ops": [o if o["op"] != "assembly" else {"op": "assembly", "pt": o["pt"], "table": [[g, ["None" if x is None else "%d values" % len(x) for x in four]] for g, four in o["table"]]} for o in ex["ops"]]})
+
+
+# --------------------------------------------------------------------------------------
+# large-index cases: the model is over unbounded Z, the code over fixed-width integers
+# --------------------------------------------------------------------------------------
+def gen_big(rng, cid):
+    dof_n = rng.randint(2, 6)
+    Ndof_min = rng.choice([47000, 70000, 70000, 100000])
+    Nn = Ndof_min // dof_n + rng.randint(1, 50)
+    types = rng.sample(["SEG2", "SEG3", "TRI3", "QUAD4"], rng.choice([1, 2]))
+    groups = []
+    for k, et in enumerate(types):
+        nPe = ELEM[et]
+        conn = []
+        for _ in range(rng.randint(1, 3)):
+            # high-numbered nodes (keys beyond 2^31) mixed with low and mid ones
+            pool = [Nn - 1 - rng.randrange(40) for _ in range(nPe)] + [rng.randrange(40) for _ in range(2)] + [rng.randrange(Nn)]
+            e = []
+            while len(e) < nPe:
+                x = rng.choice(pool)
+                if x not in e:
+                    e.append(x)
+            conn.append(e)
+        groups.append({"gid": 1 + k, "type": et, "nPe": nPe, "connect": conn})
+    mesh = {"Nn": Nn, "groups": groups}
+    ops = []
+    for i in range(rng.randint(2, 3)):
+        if i == 1 and rng.random() < 0.5:
+            ops.append({"op": "addlag", "pt": 0})
+        gs = list(groups)
+        rng.shuffle(gs)
+        table = []
+        for g in gs[:rng.randint(1, len(gs))]:
+            Ne, n = len(g["connect"]), g["nPe"] * dof_n
+            table.append([g["gid"], [gen_values(rng, Ne * n * n, False), None if rng.random() < 0.5 else gen_values(rng, Ne * n * n, False),
+                                     None, None if rng.random() < 0.3 else gen_values(rng, Ne * n, False)]])
+        ops.append({"op": "assembly", "pt": 0, "table": table})
+    return {"id": cid, "big": True, "complex": False, "meshes": [mesh], "mesh0": 0, "dof_n": [dof_n, dof_n], "ops": ops,
+            "conn": {str(g["gid"]): g["connect"] for g in groups}, "nPe": {str(g["gid"]): g["nPe"] for g in groups}}
+
+
+_BIG = re.compile(r"=\s*\((\d+),\s*(\d+),\s*(true|false)\)\s*:")
+
+
+def big_index(ctx):
+    rng = ctx.rng
+    n = 8 if ctx.tier == "quick" else 40
+    cases = [gen_big(rng, 900000 + i) for i in range(n)]
+    rc, out, err = ctx.impl_python(IMPL, input=json.dumps({"cases": cases}), timeout=900)
+    if rc != 0 or "@@JSON@@" not in out:
+        ctx.obligation("corr-big:impl-run", False, err[-1500:])
+        ctx.violation("corr:impl-crash", "implementation-side harness failed on the large-index cases: " + (err.strip().splitlines()[-1][:300] if err.strip() else "rc=%d" % rc), {"stderr": err[-3000:]}, found_input=False)
+        return
+    results = {r["id"]: r for r in json.loads(out[out.rindex("@@JSON@@") + 8:].split("\n", 1)[0])["results"]}
+    bad = []
+    body = HEADER
+    nslots = 0
+    for c in cases:
+        res = results[c["id"]]
+        Nn, d = c["meshes"][0]["Nn"], c["dof_n"][0]
+        if res.get("error"):
+            bad.append((c, "raised " + res["error"], None))
+            continue
+        if res["prop_fail"]:
+            pf = res["prop_fail"]
+            bad.append((c, "Ndof=%d: Assembly #%d slot %s is not the scatter-add of the element arrays: %s" % (pf["Ndof"], pf["assembly_index"], pf["slot"], pf["impl"]), pf))
+        nlag, k = 0, 0
+        for op in c["ops"]:
+            if op["op"] == "addlag":
+                nlag += 1
+                continue
+            A = res["assemblies"][k]
+            Ndof = Nn * d + nlag
+            if A["Ndof"] != Ndof and not res["prop_fail"]:
+                bad.append((c, "Ndof %d, expected %d" % (A["Ndof"], Ndof), None))
+            for si in range(4):
+                pres = [(g, four[si]) for g, four in op["table"] if four[si] is not None]
+                if not pres:
+                    continue
+                gs = "[" + ";".join(zll(c["conn"][str(g)]) for g, _ in pres) + "]"
+                data = [v for _, x in pres for v in x]
+                body += "Eval vm_compute in (%d, %d, big_check %s %d %d %s %s %s).\n" % (
+                    c["id"], 4 * k + si, "true" if si < 3 else "false", Ndof, d, gs, zl(data), zll(A["out"][si]))
+                nslots += 1
+                ctx.note_case("big:%d:%d:%d" % (c["id"], k, si))
+            k += 1
+    for c, what, pf in bad[:2]:
+        small = shrink_case(c, pf["op_index"]) if pf else c
+        ctx.violation("assembly-not-scatter-add:large-index" if pf else "assembly-raises:large-index",
+                      "large-index case %d (Nn=%d, dof_n=%d): %s" % (c["id"], c["meshes"][0]["Nn"], c["dof_n"][0], what),
+                      {"replay_py": REPLAY % dict(case=json.dumps(small), expected=None), "case": small, "detail": pf}, found_input=True)
+    split_obl(ctx, "corr-big:impl-satisfies-scatter-add-predicate", len(bad), len(cases), "; ".join(w for _, w, _ in bad[:3]))
+    rc, out = ctx.coq_eval("cases_big.v", body, timeout=600)
+    if rc != 0:
+        ctx.obligation("corr-big:model-eval", False, out[-1500:])
+        ctx.violation("corr:model-eval", "generated file cases_big.v does not compile", {"log": out[-3000:]}, found_input=False)
+        return
+    verdicts = [(int(m.group(1)), int(m.group(2)), m.group(3) == "true") for m in _BIG.finditer(out)]
+    wrong = [(a, b) for a, b, ok in verdicts if not ok]
+    split_obl(ctx, "corr-big:triples-and-inv-equal-model", len(wrong) + (nslots - len(verdicts)), nslots, "slots %s" % wrong[:5])
+    badids = {c["id"] for c, _, _ in bad}
+    for cid, slot in wrong[:1]:
+        if cid in badids:
+            continue
+        c = [x for x in cases if x["id"] == cid][0]
+        ctx.violation("corr:model-vs-impl:large-index", "large-index case %d assembly %d slot %s: (row, col, value) triples or the cached inv differ from the model although the matrix equals the scatter-add" % (cid, slot // 4, "KCMF"[slot % 4]),
+                      {"case": c, "replay_py": REPLAY % dict(case=json.dumps(c), expected=None)}, found_input=False)
+    ctx.cov["large_index_cases"] = len(cases)
+    ctx.cov["large_index_Ndof"] = sorted(c["meshes"][0]["Nn"] * c["dof_n"][0] for c in cases)
+    ctx.cov["large_index_slots_compared"] = nslots
 
 
 def check_renumbering(base, new, perms, ra, rb):
